@@ -1302,7 +1302,9 @@ pub fn c17(args: &Args) -> Report {
         }
         let mut rng = hist_rng(args.seed(), 0xC17, i);
         let mut p = Pools::basic();
-        p.kinds = vec![1, 1, 7, 0, 10002, 30023, 1059];
+        // (ephemeral kinds too: such an event is stored but must be reachable through NO index, the id index included -
+        // an event that one access path finds and the others do not is what this property excludes)
+        p.kinds = vec![1, 1, 7, 0, 10002, 30023, 1059, 20001, 29999];
         // ordinary times plus ones later than the wall clock (year 2100, the largest value): every access path must
         // still find such events, including the pure time-window filter served by the scan over the time index
         p.times = vec![100, 101, 102, 200, 100, 101, 0, 1, 4_102_444_800, u64::MAX];
